@@ -200,9 +200,64 @@ func scenarioW(prop string, limit int64, sources []int, panics []bool, bound int
 	return sc
 }
 
+// stackedScenario: TWO limiters in one chain, keyed by the same source - a frontend-wide limit of 2 in front of a
+// stricter limit of 1 (per location, say). Each is a limiter of its own: the handler behind the inner one never
+// sees more than ONE request of a source at a time, whatever the outer one admitted.
+func stackedScenario(prop string, sources []int, bound int) *sched.Scenario {
+	sc := &sched.Scenario{Name: fmt.Sprintf("connlimit-stacked/outer=2/inner=1/sources=%v/bound=%d", sources, bound), Bound: bound, Info: map[string]any{"sources": sources}}
+	sc.New = func() *sched.Instance {
+		w := &world{prop: prop, limit: 1, sources: sources, status: make([]int, len(sources))}
+		handler := http.HandlerFunc(func(rw http.ResponseWriter, r *http.Request) {
+			src := srcIndex(r.Header.Get("Source"))
+			w.enter(src)
+			vrt.Yield()
+			w.leave(src)
+			rw.WriteHeader(200)
+		})
+		inner, err := connlimit.New(handler, extractor(), 1)
+		if err != nil {
+			panic(err)
+		}
+		outer, err := connlimit.New(inner, extractor(), 2)
+		if err != nil {
+			panic(err)
+		}
+		inst := &sched.Instance{}
+		for i := range sources {
+			i := i
+			inst.Names = append(inst.Names, fmt.Sprintf("req%d(%s)", i, srcLabel(sources[i])))
+			inst.Bodies = append(inst.Bodies, func() {
+				rec := httptest.NewRecorder()
+				outer.ServeHTTP(rec, newReq(sources[i]))
+				w.status[i] = rec.Code
+				if rec.Code != 200 && rec.Code != http.StatusTooManyRequests {
+					vrt.Fail(prop+":connlimit:bad-status", fmt.Sprintf("unexpected status %d through two stacked limiters", rec.Code))
+				}
+			})
+		}
+		inst.Check = func(x *vrt.Exec) []vrt.Failure {
+			// quiescence: a lone request of each source passes both limiters
+			for src := 0; src < 2; src++ {
+				rec := httptest.NewRecorder()
+				outer.ServeHTTP(rec, newReq(src))
+				if rec.Code != 200 {
+					return []vrt.Failure{{Key: prop + ":connlimit:slot-leak", Detail: fmt.Sprintf("stacked limiters: after all requests finished a lone request of source %s was answered %d", srcLabel(src), rec.Code)}}
+				}
+			}
+			return nil
+		}
+		inst.Outcome = func() string { return fmt.Sprint(w.status) }
+		return inst
+	}
+	return sc
+}
+
 // Scenarios lists every (limit, source assignment, panic pattern) of the tier.
 func Scenarios(prop, tier string) []*sched.Scenario {
 	out := scenariosFor(prop, 3, -1)
+	if prop == "C04" {
+		out = append(out, stackedScenario(prop, []int{0, 0, 0}, 3), stackedScenario(prop, []int{0, 0, 1}, 3))
+	}
 	if tier == "thorough" {
 		// four threads: the unbounded space has ~10^10 schedules per scenario; explored with at most 3 preemptions
 		out = append(out, scenariosFor(prop, 4, 3)...)
